@@ -31,7 +31,7 @@ GROUPS = {
     "dagadmin": [
         U("dagadmin", "PostInit"), U("dagadmin", "AliasToIds"), U("dagadmin", "PreSetup"), U("dagadmin", "Setup", "sync"), U("dagadmin", "Setup", "async"),
         U("dagadmin", "ExecutionPostInit"), U("dagadmin", "ExecutionSetup", "sync"), U("dagadmin", "ExecutionSetup", "async"), U("dagadmin", "ResolvedNodes"), U("dagadmin", "GetSingleXnByAlias"), U("dagadmin", "ConfigFromFile", "yaml"), U("dagadmin", "ConfigFromFile", "json"), U("dagadmin", "Executor", "sync"), U("dagadmin", "Executor", "async"),
-        U("dagadmin", "PostCall"), U("dagadmin", "CacheResults"), U("dagadmin", "GetMultipleNodesAliases"), U("dagadmin", "ResultsProperty"), U("dagadmin", "ConfigFromDict"),
+        U("dagadmin", "PostCall"), U("dagadmin", "CacheResults"), U("dagadmin", "GetMultipleNodesAliases"), U("dagadmin", "ResultsProperty"), U("dagadmin", "ConfigFromDict"), U("dagadmin", "DetectDuplicates"),
     ],
     "nodeexec": [U("nodeexec", "Execute"), U("nodeexec", "Dependencies"), U("nodeexec", "ConfToValues")],
     "graphbuild": [U("graphbuild", "AddExecNode"), U("graphbuild", "FromExecNodes")],
